@@ -9,10 +9,10 @@ package proxy
 // specification prescribes from the attempt and the htpasswd content in force alone.
 
 import (
-	"log"
 	"bytes"
 	"fmt"
 	"io"
+	"log"
 	"net/http"
 	"net/http/httptest"
 	"os"
